@@ -23,6 +23,7 @@ RULE_TEXT = (
     "to_pylist() row dict; C05.c offset==index(0 if unset), length==advance; C05.d no-result-set error raised before "
     "any dereference; C05.e default size == attribute written by the arraysize setter; C05.f fetch_pandas_all converts "
     "the whole result table whatever the fetch index."
+    " C05.f also: with an open result set (empty or not) no fetch method raises."
 )
 TRUSTED = ["CPython ast", "pyarrow Table/RecordBatch.to_pylist() yields name-keyed dicts; Table.slice(offset,length) is positional"]
 
